@@ -109,6 +109,26 @@ pub fn run(ctx: &Ctx, ev: &mut Ev) {
             }
         }
     }
+    // (a2) mixed-length valid text: every sequence of <= 6 characters over one character of each UTF-8 length, after ASCII
+    // pads that shift it against the `read + 4 <= len` hand-over, alone and with one defect at every character boundary
+    if ctx.want("mixed") && !tiny {
+        let chars: [&[u8]; 4] = [b"a", "\u{E9}".as_bytes(), "\u{20AC}".as_bytes(), "\u{1F600}".as_bytes()];
+        let idx = [0usize, 1, 2, 3];
+        for seq in strings_over(&idx, if th { 7 } else { 6 }).iter() {
+            if !ev.mine() { continue; }
+            let h = seq.iter().fold(7usize, |a, b| a * 5 + b);
+            for pad in [0usize, 1, 2, 3, 13, 60, 61] {
+                if pad >= 13 && !th && h % 4 != pad % 4 { continue; }
+                let mut v: Vec<u8> = (0..pad).map(|i| b'a' + (i % 26) as u8).collect();
+                let mut bounds = vec![v.len()];
+                for t in seq { v.extend_from_slice(chars[*t]); bounds.push(v.len()); }
+                check_bytes(&mut drv, ev, &v, (h + pad) % 16, true, false);
+                // one defect at a character boundary (quick: one defect class per sequence, rotating)
+                let dsel: Vec<usize> = if th { (0..DEFECTS.len()).step_by(3).map(|k| (k + h) % DEFECTS.len()).collect() } else { vec![h % DEFECTS.len()] };
+                if pad <= 3 { for di in dsel { for b in bounds.iter() { let mut w = v[..*b].to_vec(); w.extend_from_slice(DEFECTS[di]); w.extend_from_slice(&v[*b..]); check_bytes(&mut drv, ev, &w, (h + di) % 16, true, false); } } }
+            }
+        }
+    }
     // (b) two defects for selected lengths
     if ctx.want("two") && !tiny {
         let lens: Vec<usize> = (0..=40).chain(60..=70).chain(120..=135).collect();
